@@ -82,6 +82,17 @@ def handle (line : String) : String :=
       let quiet := mode.endsWith "q"
       let (out, code, err) := Cli.run multiline quiet lib input
       s!"{hexOrDash out} {code} {if err then 1 else 0}"
+  | ["apath", x] => match fromHex x with
+    | some path =>
+      -- a path applied to the fixed document of the scan stream, from its root
+      match unmarshal "{\"a\":[1,2,{\"b\":\"x\"}],\"0\":3}".toUTF8.toList with
+      | .error _ => "bad-doc"
+      | .ok (h, root) =>
+        match h.jsonPath ⟨builtinTable, {}⟩ (some root) path with
+        | (h', .ok ids) => "ok " ++ ",".intercalate (ids.map (fun n => if n < h.size then hexOrDash (h'.pathOf (h'.size + 1) n) else "new"))
+        | (_, .err e) => s!"err {e.typ.code}"
+        | (_, .panic site) => if site.startsWith "oracle:" then "oracle-missing" else "panic " ++ site
+    | none => "bad-hex"
   | ["race", _, _, _] =>
     -- the model's prediction for any pair of read-only operations run concurrently on one tree: every call returns what it
     -- returns alone (Props.C12: reads write nothing but deterministic cache fills)
